@@ -177,6 +177,14 @@ def check(rep: Report, ctx: Ctx) -> None:
     from .util import borrow
     borrow(rep, ctx, _c11, "C11", "R11.1", "R15.9")
 
+    # ---- R15.10 --------------------------------------------------------------
+    # the trim of one run and the candidate window of the next (--no-ingest,
+    # -ug) must mean the same by "inside the window" (seed C15-d)
+    rep.rule("R15.10", "the destructive trim and the candidate window use "
+             "one predicate (= C11 R11.4 / R11.6)", 2)
+    n = borrow(rep, ctx, _c11, "C11", "R11.4", "R15.10")
+    n += borrow(rep, ctx, _c11, "C11", "R11.6", "R15.10")
+
     # ---- R15.5 ---------------------------------------------------------------
     rep.rule("R15.5", "opening the store never resets it", 2)
     fetch = ctx.func("fetch_data_holder")
